@@ -355,16 +355,29 @@ func c05NativeProgram(r *vrt.Rng) (dir, file, src string, gIn, eIn []string, err
 	for _, o := range sh.Outs {
 		rets = append(rets, fmt.Sprintf("uint%d", o))
 	}
+	k1, k2 := r.Intn(1<<uint(min(wa, 6))), r.Intn(1<<uint(min(wb, 6)))
+	gIn, eIn = []string{"0x" + r.Big(wa).Text(16)}, []string{"0x" + r.Big(wb).Text(16)}
+	// a third call with a literal argument narrower than the circuit's
+	// input (the front end pads a constant argument to the input's width)
+	third := "a, b"
+	if wa > 1 && wb > 1 {
+		cw := r.Range(1, wb-1)
+		third = fmt.Sprintf("a, uint%d(%d)", cw, r.Intn(1<<uint(min(cw, 5))))
+		if r.Bool() {
+			cw = r.Range(1, wa-1)
+			third = fmt.Sprintf("uint%d(%d), b", cw, r.Intn(1<<uint(min(cw, 5))))
+		}
+	}
 	fmt.Fprintf(&b, "package main\n\nfunc main(a uint%d, b uint%d) (%s, uint%d) {\n", wa, wb, strings.Join(rets, ", "), sh.Outs[0])
 	if len(sh.Outs) == 1 {
-		fmt.Fprintf(&b, "\tx := native(\"%s\", a, b)\n\ty := native(\"%s\", a ^ %d, b + %d)\n\treturn x, x ^ y\n}\n", name, name, r.Intn(1<<uint(min(wa, 6))), r.Intn(1<<uint(min(wb, 6))))
+		fmt.Fprintf(&b, "\tx := native(\"%s\", a, b)\n\ty := native(\"%s\", a ^ %d, b + %d)\n\tz := native(\"%s\", %s)\n\treturn x, x ^ y ^ z\n}\n", name, name, k1, k2, name, third)
 	} else {
-		fmt.Fprintf(&b, "\tx, p := native(\"%s\", a, b)\n\ty, q := native(\"%s\", a ^ %d, b + %d)\n\treturn x, p ^ q, x ^ y\n}\n", name, name, r.Intn(1<<uint(min(wa, 6))), r.Intn(1<<uint(min(wb, 6))))
+		fmt.Fprintf(&b, "\tx, p := native(\"%s\", a, b)\n\ty, q := native(\"%s\", a ^ %d, b + %d)\n\tz, u := native(\"%s\", %s)\n\treturn x, p ^ q ^ u, x ^ y ^ z\n}\n", name, name, k1, k2, name, third)
 	}
 	src = b.String()
 	file = filepath.Join(dir, "main.mpcl")
 	err = os.WriteFile(file, []byte(src), 0o600)
-	return dir, file, src, []string{"0x" + r.Big(wa).Text(16)}, []string{"0x" + r.Big(wb).Text(16)}, err
+	return dir, file, src, gIn, eIn, err
 }
 
 func init() {
